@@ -277,6 +277,13 @@ func runCodec(ctx *core.Ctx, cases []*ProgCase, langs []string) []string {
 	return out
 }
 
+// wallClockAnswer reports whether a driver's ERR answer is about its per-command wall-clock limit
+// (a loaded machine, or a non-terminating emitted routine): unobservable, never a verdict.
+func wallClockAnswer(errText string) bool {
+	t := strings.ToLower(errText)
+	return strings.Contains(t, "timeout") || strings.Contains(t, "watchdog") || strings.Contains(t, "deadline exceeded") || strings.Contains(t, "still running after")
+}
+
 // optsInForce lists the wire-relevant options a program sets to a non-default value.
 func optsInForce(p *dsl.Program) string {
 	var out []string
